@@ -14,7 +14,11 @@ open Vakt PyVal
 inductive V where
   | py (v : PyVal)
   | set (xs : List PyVal)        -- a Python `set` (members are hashable)
-  deriving Inhabited
+  | inq (q : Option Inquiry)     -- the `inquiry` argument: an `Inquiry` object, or `None`
+  | rule (r : Rule)              -- a rule object held by a composition rule
+  | seq (xs : List V)            -- a tuple / list of such objects (`self.rules`, the answers of a comprehension)
+
+instance : Inhabited V := ⟨.py .none⟩
 
 abbrev M := Except PyErr V
 
@@ -23,6 +27,9 @@ def ofBool (b : Bool) : M := .ok (.py (.bool b))
 def truth : V → Bool
   | .py v => truthy v
   | .set xs => !xs.isEmpty
+  | .inq q => q.isSome              -- an object without `__bool__` / `__len__` is true, `None` is false
+  | .rule _ => true
+  | .seq xs => !xs.isEmpty
 
 /-- the answer of `satisfied` as the checkers see it: its truthiness, or the exception -/
 def toR (m : M) : R := m.map truth
@@ -40,9 +47,9 @@ def bindM (a : M) (f : V → M) : M := match a with | .ok v => f v | .error e =>
 def iteM (c : M) (t e : M) : M := bindM c fun v => if truth v then t else e
 
 /-- `a and b` / `a or b`: the right operand is evaluated only when needed, the value is that of the deciding operand -/
-def andM (a : M) (b : Unit → M) : M := bindM a fun v => if truth v then b () else .ok v
-def orM (a : M) (b : Unit → M) : M := bindM a fun v => if truth v then .ok v else b ()
-def notM (a : M) : M := bindM a fun v => ofBool (!truth v)
+def pyAnd (a : M) (b : Unit → M) : M := bindM a fun v => if truth v then b () else .ok v
+def pyOr (a : M) (b : Unit → M) : M := bindM a fun v => if truth v then .ok v else b ()
+def pyNot (a : M) : M := bindM a fun v => ofBool (!truth v)
 
 def liftR (r : R) : M := r.map (fun b => .py (.bool b))
 
@@ -58,16 +65,25 @@ def cmpLe (a b : M) : M := cmp2 pyLe a b
 def cmpGt (a b : M) : M := cmp2 pyGt a b
 def cmpGe (a b : M) : M := cmp2 pyGe a b
 
-/-- `a in b`: a set (hash look-up: `TypeError` for an unhashable `a`), a list / tuple (scan), a string (substring) -/
+/-- `k in d` for a dictionary with string keys: a hash look-up (`TypeError` for an unhashable key) -/
+def dictHas (k : PyVal) (kvs : List (List Char × PyVal)) : R :=
+  if !hashable k then .error .raised
+  else match k with
+    | .str s => .ok (lookup s kvs).isSome
+    | _ => .ok false
+
+/-- `a in b`: a set (hash look-up: `TypeError` for an unhashable `a`), a dictionary (hash look-up
+among its keys), a list / tuple (scan), a string (substring) -/
 def cmpIn (a b : M) : M :=
   bindM a fun x => bindM b fun y => match x, y with
     | .py u, .set d => liftR (memSet u d)
+    | .py k, .py (.dict kvs) => liftR (dictHas k kvs)
     | .py u, .py (.list xs) => ofBool (memList u xs)
     | .py u, .py (.tuple xs) => ofBool (memList u xs)
     | .py (.str s), .py (.str t) => ofBool (isInfix s t)
     | _, _ => raiseM
 
-def cmpNotIn (a b : M) : M := notM (cmpIn a b)
+def cmpNotIn (a b : M) : M := pyNot (cmpIn a b)
 
 /-- `isinstance(x, T)` for the types these bodies test -/
 def isinstanceM (a : M) (ty : String) : M :=
@@ -79,6 +95,7 @@ def isinstanceM (a : M) (ty : String) : M :=
         | "dict" => isDict v
         | _ => false)
     | .set _ => ofBool (ty == "set")
+    | _ => ofBool false
 
 /-- `list(x)` -/
 def callList (a : M) : M :=
@@ -139,5 +156,87 @@ def methDifference (a b : M) : M :=
   bindM a fun x => bindM b fun y => match x, members y with
     | .set s, some d => .ok (.set (s.filter fun e => !d.any (pyEq e)))
     | _, _ => raiseM
+
+/-! ### objects, sequences, loops -/
+
+/-- `x is None` / `x is not None` -/
+def isNoneM (a : M) : M := bindM a fun x => ofBool (match x with | .py .none => true | .inq Option.none => true | _ => false)
+def isNotNoneM (a : M) : M := pyNot (isNoneM a)
+
+/-- `inquiry.<name>` / `getattr(inquiry, '<name>')` -/
+def attrM (a : M) (name : String) : M :=
+  bindM a fun x => match x with
+    | .inq (some q) => (match name with
+        | "subject" => .ok (.py q.subject)
+        | "action" => .ok (.py q.action)
+        | "resource" => .ok (.py q.resource)
+        | "context" => .ok (.py q.context)
+        | _ => raiseM)
+    | _ => raiseM                                      -- AttributeError
+
+/-- `a[k]`: a dictionary item (`KeyError` when absent), a list / tuple / string item by a constant index -/
+def subscriptM (a k : M) : M :=
+  bindM a fun x => bindM k fun i => match x, i with
+    | .py (.dict kvs), .py (.str s) => (match lookup s kvs with | some v => .ok (.py v) | Option.none => raiseM)
+    | .py (.dict _), _ => raiseM
+    | .py (.list xs), .py (.int n) => (match xs[n.toNat]? with | some v => if 0 ≤ n then .ok (.py v) else raiseM | Option.none => raiseM)
+    | .py (.tuple xs), .py (.int n) => (match xs[n.toNat]? with | some v => if 0 ≤ n then .ok (.py v) else raiseM | Option.none => raiseM)
+    | .py (.str cs), .py (.int n) => (match cs[n.toNat]? with | some c => if 0 ≤ n then .ok (.py (.str [c])) else raiseM | Option.none => raiseM)
+    | _, _ => raiseM
+
+/-- `len(x)` -/
+def callLen (a : M) : M :=
+  bindM a fun x => match x with
+    | .py (.list xs) => cInt xs.length
+    | .py (.tuple xs) => cInt xs.length
+    | .py (.str cs) => cInt cs.length
+    | .py (.dict kvs) => cInt kvs.length
+    | .set xs => cInt xs.length
+    | .seq xs => cInt xs.length
+    | _ => raiseM                                      -- TypeError: object of type … has no len()
+
+/-- the items a `for` loop / a comprehension iterates over -/
+def items : V → Option (List V)
+  | .seq xs => some xs
+  | .py (.list xs) => some (xs.map V.py)
+  | .py (.tuple xs) => some (xs.map V.py)
+  | .py (.str cs) => some (cs.map fun c => V.py (.str [c]))
+  | .set xs => some (xs.map V.py)
+  | _ => Option.none
+
+/-- `for x in xs: BODY` followed by `REST`: the body of one iteration receives what comes after it (the next
+iteration, finally `REST`) and either ends the function (`return`, `raise`) or goes on with it (falling off the end,
+`continue`) -/
+def loopM : List V → (V → M → M) → M → M
+  | [], _, rest => rest
+  | x :: xs, body, rest => body x (loopM xs body rest)
+
+def pyFor (a : M) (body : V → M → M) (rest : M) : M :=
+  bindM a fun x => match items x with
+    | some xs => loopM xs body rest
+    | Option.none => raiseM
+
+/-- `[f(x) for x in xs]`: every item is evaluated, the first exception propagates -/
+def compM : List V → (V → M) → Except PyErr (List V)
+  | [], _ => .ok []
+  | x :: xs, f => match f x with
+    | .error e => .error e
+    | .ok v => (match compM xs f with | .error e => .error e | .ok vs => .ok (v :: vs))
+
+def listCompM (a : M) (f : V → M) : M :=
+  bindM a fun x => match items x with
+    | some xs => (compM xs f).map V.seq
+    | Option.none => raiseM
+
+/-- `all(xs)` / `any(xs)` over a sequence of values -/
+def callAll (a : M) : M := bindM a fun x => match items x with | some xs => ofBool (xs.all truth) | Option.none => raiseM
+def callAny (a : M) : M := bindM a fun x => match items x with | some xs => ofBool (xs.any truth) | Option.none => raiseM
+
+/-- `rule.satisfied(what, inquiry)` on a rule object: the model's evaluation of that rule -/
+def methSatisfied (r w q : M) : M :=
+  bindM r fun r => bindM w fun w => bindM q fun q => match r, w, q with
+    | .rule r, .py w, .inq q => liftR (Rule.eval r w q)
+    | .rule r, .py w, .py .none => liftR (Rule.eval r w Option.none)
+    | _, _, _ => raiseM
 
 end Vakt.PyPrim
